@@ -184,4 +184,14 @@ example : (Bzip2.Impl.run [0x42, 0x5a, 0x68, 0x39, 0x17, 0x72, 0x45, 0x38, 0x50,
     (Bzip2.Impl.run [0x42, 0x5a, 0x30] [0, 5]).err = some .deprecated := by
   decide
 
+/-- the hypotheses of `C03_success_iff`, `C03_cut_model` and `C03_reject_stable` are satisfiable:
+    the 14-byte empty stream is accepted with no output (so one non-empty Read suffices and every
+    proper cut of it is a cut of an accepted input), and "BZ0" is a behaviour that ends deprecated. -/
+example : (Bzip2.decode [0x42, 0x5a, 0x68, 0x39, 0x17, 0x72, 0x45, 0x38, 0x50, 0x90, 0, 0, 0, 0]).out = #[] ∧
+    (Bzip2.decode [0x42, 0x5a, 0x68, 0x39, 0x17, 0x72, 0x45, 0x38, 0x50, 0x90, 0, 0, 0, 0]).verdict = .ok ∧
+    (Bzip2.decode [0x42, 0x5a, 0x68, 0x39, 0x17, 0x72, 0x45, 0x38, 0x50, 0x90, 0, 0, 0, 0]).out.size <
+      ([1].filter (0 < ·)).length ∧
+    (Compress.Proofs.BzImpl.beh (Bzip2.Impl.init (Bits.ofBytesMSB [0x42, 0x5a, 0x30]))).2 = .deprecated := by
+  decide
+
 end Compress.Props.C03
